@@ -74,7 +74,7 @@ def gen_states(rng, vp=None, wf=True):
     raise RuntimeError("no state")
 
 
-def gen_project(rng, max_files=5, max_pats=4, shared_lines=True, mixed_endings=True, vp=None):
+def gen_project(rng, max_files=5, max_pats=4, shared_lines=True, mixed_endings=True, vp=None, ascii_names=False):
     vpat, old, new, flags, d2 = gen_states(rng, vp)
     tree = refimpl.tokenize(vpat)
     templates = [t for t in RAW_TEMPLATES if "{pep440_version}" not in t or
@@ -86,7 +86,10 @@ def gen_project(rng, max_files=5, max_pats=4, shared_lines=True, mixed_endings=T
     if "MM" not in vpat and "0M" not in vpat:
         templates = [t for t in templates if "0M" not in t]
     nfiles = rng.randint(1, max_files)
-    names = rng.sample(["README.md", "setup.py", "src/pkg/__init__.py", "docs/conf.py", "VERSION", "a b.txt", "Änderungen.txt", "pyproject.txt"], nfiles)
+    pool = ["README.md", "setup.py", "src/pkg/__init__.py", "docs/conf.py", "VERSION", "a b.txt", "Änderungen.txt", "pyproject.txt"]
+    if ascii_names:
+        pool = [n for n in pool if n.isascii()]       # file NAME encoding under an ASCII locale is the OS's business, not bumpver's
+    names = rng.sample(pool, min(nfiles, len(pool)))
     layout = []
     for name in names:
         raws = rng.sample(templates, min(len(templates), rng.randint(1, max_pats)))
